@@ -8,8 +8,10 @@ rest = args[2:]
 i = rest.index('--'); files = rest[:i]; rest = rest[i+1:]
 j = rest.index('--'); fixed = ' '.join(rest[:j]); rest = rest[j+1:]
 k = rest.index('--'); row = ' '.join(rest[:k]); subj = ' '.join(rest[k+1:])
-h = subprocess.run(['git','-C','/repo','log','--format=%h','-1'],capture_output=True,text=True).stdout.strip()
-d = subprocess.run(['git','-C','/repo','diff','HEAD','HEAD~1','--']+files,capture_output=True,text=True).stdout
+import os
+rev = os.environ.get('FIXREV','HEAD')
+h = subprocess.run(['git','-C','/repo','log','--format=%h','-1',rev],capture_output=True,text=True).stdout.strip()
+d = subprocess.run(['git','-C','/repo','diff',rev,rev+'~1','--']+files,capture_output=True,text=True).stdout
 open('/verif/mutants/%s.patch'%mut,'w').write(d)
 open('/verif/mutants/targets.txt','a').write('%s.patch %s\n'%(mut,prop))
 p='/verif/KNOWN_FINDINGS.txt'
